@@ -196,6 +196,17 @@ def _rank_root(t, depth=0):
     return t
 
 
+def _display_item(t):
+    """row, col = a, b: a name bound by unpacking a display is that item (the builder keeps `unpack<(a, b), i, 2>` for such targets)"""
+    for _ in range(3):
+        if isinstance(t, T) and t.op == 'unpack' and isinstance(t.args[0], T) and t.args[0].op in ('tuple', 'list') and t.args[3] is None \
+                and len(t.args[0].args[0]) == t.args[2] and not any(x.op == 'star' for x in t.args[0].args[0]):
+            t = t.args[0].args[0][t.args[1]]
+        else:
+            break
+    return t
+
+
 def _stores(node, name):
     return any(isinstance(x, ast.Name) and x.id == name and isinstance(x.ctx, (ast.Store, ast.Del)) for x in ast.walk(node))
 
@@ -335,12 +346,117 @@ class FuncGraph:
         self.events.append(e)
         return e
 
+    ELEMENTWISE_CALLS = ('numpy.abs', 'numpy.absolute', 'numpy.conj', 'numpy.conjugate', 'numpy.exp', 'numpy.log', 'numpy.sqrt', 'numpy.square', 'numpy.real', 'numpy.imag',
+                         'numpy.angle', 'numpy.cos', 'numpy.sin', 'numpy.negative', 'numpy.log10', 'numpy.sign')
+
+    def _drop_explicit_broadcast(self, op, args, node):
+        """y / np.broadcast_to(n, y.shape) is y / n (also with the broadcast under |.|, + eps, ...): inside one elementwise expression that contains the array y itself, an
+        operand that was explicitly broadcast to the shape of y takes part with the same values as the operand it was broadcast from"""
+        def leaves(t, depth=0):
+            # (leaf, path) for the leaves reached through elementwise operations
+            if not isinstance(t, T) or depth > 6:
+                return
+            if t.op in ('binop', 'iop') and t.args[0] in ('Add', 'Sub', 'Mult', 'Div', 'Pow'):
+                yield from leaves(t.args[1], depth + 1)
+                yield from leaves(t.args[2], depth + 1)
+            elif t.op == 'call' and t.args[0].op == 'ref' and isinstance(t.args[0].args[0], Lib) and t.args[0].args[0].dotted in self.ELEMENTWISE_CALLS and len(t.args[1]) == 1 \
+                    and not t.args[2] and t.args[1][0].op != 'star':
+                yield from leaves(t.args[1][0], depth + 1)
+            elif t.op == 'refine':
+                yield from leaves(t.args[0], depth + 1)
+            else:
+                yield t
+
+        def shape_owner(shp):
+            # y.shape / np.shape(y)  ->  y
+            if shp.op == 'attr' and shp.args[1] == 'shape':
+                return shp.args[0]
+            if shp.op == 'call' and shp.args[0].op == 'ref' and isinstance(shp.args[0].args[0], Lib) and shp.args[0].args[0].dotted == 'numpy.shape' and len(shp.args[1]) == 1 \
+                    and not shp.args[2]:
+                return shp.args[1][0]
+            return None
+
+        def base(x):
+            while isinstance(x, T) and x.op == 'refine':
+                x = x.args[0]
+            return x
+        all_leaves = [l for a in args[1:] for l in leaves(a)]
+        targets = {}
+        for l in all_leaves:
+            if l.op == 'call' and l.args[0].op == 'ref' and isinstance(l.args[0].args[0], Lib) and l.args[0].args[0].dotted == 'numpy.broadcast_to' and len(l.args[1]) == 2 \
+                    and not l.args[2] and not any(a.op == 'star' for a in l.args[1]):
+                owner = shape_owner(l.args[1][1])
+                if owner is not None and any(base(m) is base(owner) for m in all_leaves if m is not l):
+                    targets[l.id] = l.args[1][0]
+        if not targets:
+            return None
+
+        def rebuild(t, depth=0):
+            if not isinstance(t, T) or depth > 6:
+                return t
+            if t.id in targets:
+                self.events[:] = [ev for ev in self.events if ev.term is not t]
+                return targets[t.id]
+            if t.op in ('binop', 'iop') and t.args[0] in ('Add', 'Sub', 'Mult', 'Div', 'Pow'):
+                a, b = rebuild(t.args[1], depth + 1), rebuild(t.args[2], depth + 1)
+                if a is t.args[1] and b is t.args[2]:
+                    return t
+                return T(t.op, (t.args[0], a, b), t.node, self.fn)
+            if t.op == 'call' and t.args[0].op == 'ref' and isinstance(t.args[0].args[0], Lib) and t.args[0].args[0].dotted in self.ELEMENTWISE_CALLS and len(t.args[1]) == 1 \
+                    and not t.args[2]:
+                a = rebuild(t.args[1][0], depth + 1)
+                if a is t.args[1][0]:
+                    return t
+                new = T('call', (t.args[0], (a,), ()), t.node, self.fn)
+                for ev in self.events:
+                    if ev.term is t:
+                        ev.term = new
+                return new
+            if t.op == 'refine':
+                a = rebuild(t.args[0], depth + 1)
+                return t if a is t.args[0] else T('refine', (a,) + tuple(t.args[1:]), t.node, self.fn)
+            return t
+        return (args[0], rebuild(args[1]), rebuild(args[2]))
+
     def mk(self, op, args, node):
+        if op in ('binop', 'iop') and len(args) == 3 and args[0] in ('Add', 'Sub', 'Mult', 'Div', 'Pow') and isinstance(args[1], T) and isinstance(args[2], T):
+            dropped = self._drop_explicit_broadcast(op, args, node)
+            if dropped is not None:
+                args = dropped
         if op == 'gamma' and len(args) == 3:
             r = self._neutral_element_fast_path(*args)
+            if r is None:
+                r = self._normalised_axis(*args)
             if r is not None:
                 return r
         return T(op, args, node, self.fn)
+
+    def _normalised_axis(self, c, a, b):
+        """`axis + x.ndim if axis < 0 else axis` (also with the lower bound `-x.ndim <= axis` in the test) names the same axis as `axis`: an axis counted from the front
+        instead of from the back"""
+        if not (isinstance(c, T) and isinstance(a, T) and isinstance(b, T)):
+            return None
+        def base(x):
+            while isinstance(x, T) and x.op == 'refine':
+                x = x.args[0]
+            return x
+        tests, todo = [], [c]
+        while todo:
+            t_ = todo.pop()
+            if isinstance(t_, T) and t_.op == 'bool' and t_.args[0] == 'And':
+                todo.extend(t_.args[1])
+            elif isinstance(t_, T):
+                tests.append(t_)
+        ax = base(b)
+        if not (a.op == 'binop' and a.args[0] == 'Add'):
+            return None
+        for u, v in ((a.args[1], a.args[2]), (a.args[2], a.args[1])):
+            if base(u) is ax and self._rank_source(v) is not None:
+                for t_ in tests:
+                    # axis < 0, or the chained  -ndim <= axis < 0  (a conjunction of two comparisons)
+                    if t_.op == 'cmp' and t_.args[0] == 'Lt' and base(t_.args[1]) is ax and t_.args[2].op == 'const' and t_.args[2].args[0] == 0:
+                        return b
+        return None
 
     @staticmethod
     def _neutral_element_fast_path(c, a, b):
@@ -873,7 +989,334 @@ class FuncGraph:
             return None
         return ('seq', env_b, ret_b)
 
+    def _index_loop_as_rows(self, s):
+        """for i in range(X.shape[0]) / range(len(X)): ... X[i] ...   with i used for nothing else   is   for row in X: ... row ..."""
+        if not (isinstance(s.target, ast.Name) and isinstance(s.iter, ast.Call) and isinstance(s.iter.func, ast.Name) and s.iter.func.id == 'range'
+                and len(s.iter.args) == 1 and not s.iter.keywords):
+            return None
+        n, i = s.iter.args[0], s.target.id
+        X = None
+        if isinstance(n, ast.Subscript) and isinstance(n.value, ast.Attribute) and n.value.attr == 'shape' and isinstance(n.value.value, ast.Name) \
+                and isinstance(n.slice, ast.Constant) and n.slice.value == 0 and not isinstance(n.slice.value, bool):
+            X = n.value.value.id
+        elif isinstance(n, ast.Call) and isinstance(n.func, ast.Name) and n.func.id == 'len' and len(n.args) == 1 and not n.keywords and isinstance(n.args[0], ast.Name):
+            X = n.args[0].id
+        if X is None or X == i:
+            return None
+        rows = set()
+        inside = 0
+        for b in s.body + s.orelse:
+            for m in ast.walk(b):
+                if isinstance(m, ast.Subscript) and isinstance(m.value, ast.Name) and m.value.id == X and isinstance(m.slice, ast.Name) and m.slice.id == i:
+                    if not isinstance(m.ctx, ast.Load):
+                        return None
+                    rows.add(id(m.slice))
+                    rows.add(id(m.value))
+                if isinstance(m, (ast.FunctionDef, ast.Lambda, ast.AsyncFunctionDef, ast.ListComp, ast.GeneratorExp, ast.SetComp, ast.DictComp)):
+                    if any(isinstance(k, ast.Name) and k.id in (i, X) for k in ast.walk(m)):
+                        return None
+        for b in s.body + s.orelse:
+            for m in ast.walk(b):
+                if isinstance(m, ast.Name) and m.id == i:
+                    inside += 1
+                    if id(m) not in rows:
+                        return None
+                if isinstance(m, ast.Name) and m.id == X and (id(m) not in rows or not isinstance(m.ctx, ast.Load)):
+                    return None          # X used otherwise inside the loop (rebinding, whole-array reads): left alone
+        if not rows:
+            return None
+        fn_node = getattr(self.cur_fn, 'node', None)
+        if fn_node is None:
+            return None
+        total = sum(1 for m in ast.walk(fn_node) if isinstance(m, ast.Name) and m.id == i)
+        if total != inside + 1:
+            return None          # the index is used outside this loop too
+        import copy
+        row = '_row_of_' + X
+
+        class Rows(ast.NodeTransformer):
+            def visit_Subscript(self_, m):
+                if isinstance(m.value, ast.Name) and m.value.id == X and isinstance(m.slice, ast.Name) and m.slice.id == i:
+                    return ast.copy_location(ast.Name(id=row, ctx=ast.Load()), m)
+                return self_.generic_visit(m)
+        new = copy.deepcopy(s)
+        new.body = [Rows().visit(b) for b in new.body]
+        new.orelse = [Rows().visit(b) for b in new.orelse]
+        new.target = ast.copy_location(ast.Name(id=row, ctx=ast.Store()), s.target)
+        new.iter = ast.copy_location(ast.Name(id=X, ctx=ast.Load()), s.iter)
+        ast.fix_missing_locations(new)
+        return new
+
+    def _single_defs(self):
+        """names of the current function that are bound exactly once, by a plain assignment `name = <expr>`: {name: expr}"""
+        fn_node = getattr(self.cur_fn, 'node', None)
+        if fn_node is None:
+            return {}
+        cache = self.__dict__.setdefault('_single_defs_cache', {})
+        if id(fn_node) in cache:
+            return cache[id(fn_node)]
+        count, expr = {}, {}
+        for m in ast.walk(fn_node):
+            if isinstance(m, ast.Name) and isinstance(m.ctx, (ast.Store, ast.Del)):
+                count[m.id] = count.get(m.id, 0) + 1
+            if isinstance(m, ast.Assign) and len(m.targets) == 1 and isinstance(m.targets[0], ast.Name):
+                expr[m.targets[0].id] = m.value
+            if isinstance(m, ast.arg):
+                count[m.arg] = count.get(m.arg, 0) + 1
+        out = {k: v for k, v in expr.items() if count.get(k) == 1}
+        cache[id(fn_node)] = out
+        return out
+
+    def _blocked_loop_as_flat(self, s):
+        """for b in range(ceil(N / K)):                      for start in range(0, N, K):
+               for i in range(b * K, min((b + 1) * K, N)):       for i in range(start, min(start + K, N)):
+                   body                                              body
+        with b / start used for nothing else is `for i in range(N): body`: the blocks partition range(N) in order.  Also as the two generators of a
+        generator expression that a for loop iterates."""
+        defs = self._single_defs()
+
+        def res(x, depth=0):
+            # a name bound once to an expression stands for it (num_blocks = -(-F // block_size))
+            if isinstance(x, ast.Name) and x.id in defs and depth < 3 and not isinstance(defs[x.id], (ast.Name,)) \
+                    and isinstance(defs[x.id], (ast.BinOp, ast.UnaryOp, ast.Call, ast.Constant)):
+                return res(defs[x.id], depth + 1)
+            return x
+
+        def same(a, b):
+            return ast.dump(res(a)) == ast.dump(res(b))
+
+        def is_range(c, n):
+            return isinstance(c, ast.Call) and isinstance(c.func, ast.Name) and c.func.id == 'range' and len(c.args) == n and not c.keywords
+
+        def ceil_div(x):
+            """x = -(-N // K) / (N + K - 1) // K / math.ceil(N / K) / max(1, <those>)  ->  (N, K)"""
+            x = res(x)
+            if isinstance(x, ast.UnaryOp) and isinstance(x.op, ast.USub) and isinstance(x.operand, ast.BinOp) and isinstance(x.operand.op, ast.FloorDiv) \
+                    and isinstance(x.operand.left, ast.UnaryOp) and isinstance(x.operand.left.op, ast.USub):
+                return x.operand.left.operand, x.operand.right
+            if isinstance(x, ast.BinOp) and isinstance(x.op, ast.FloorDiv) and isinstance(x.left, ast.BinOp) and isinstance(x.left.op, ast.Sub) \
+                    and isinstance(x.left.right, ast.Constant) and x.left.right.value == 1 and isinstance(x.left.left, ast.BinOp) and isinstance(x.left.left.op, ast.Add):
+                a, b = x.left.left.left, x.left.left.right
+                if same(b, x.right):
+                    return a, x.right
+                if same(a, x.right):
+                    return b, x.right
+            if isinstance(x, ast.Call) and ((isinstance(x.func, ast.Attribute) and x.func.attr == 'ceil') or (isinstance(x.func, ast.Name) and x.func.id == 'ceil')) \
+                    and len(x.args) == 1 and isinstance(x.args[0], ast.BinOp) and isinstance(x.args[0].op, ast.Div):
+                return x.args[0].left, x.args[0].right
+            return None
+
+        def uses(name, nodes):
+            return any(isinstance(m, ast.Name) and m.id == name for b_ in nodes for m in ast.walk(b_))
+
+        def block_pair(b, outer_iter, inner_iter):
+            """-> N when the two ranges enumerate 0..N-1 block by block"""
+            if not is_range(inner_iter, 2):
+                return None
+            lo, hi = inner_iter.args
+            if not (isinstance(hi, ast.Call) and isinstance(hi.func, ast.Name) and hi.func.id == 'min' and len(hi.args) == 2 and not hi.keywords):
+                return None
+            if is_range(outer_iter, 1):
+                nk = ceil_div(outer_iter.args[0])
+                if nk is None:
+                    return None
+                N, K = nk
+                def times(x):
+                    # b * K / K * b
+                    return isinstance(x, ast.BinOp) and isinstance(x.op, ast.Mult) and ((isinstance(x.left, ast.Name) and x.left.id == b and same(x.right, K)) or
+                                                                                      (isinstance(x.right, ast.Name) and x.right.id == b and same(x.left, K)))
+                def next_times(x):
+                    # (b + 1) * K / K * (b + 1) / b * K + K
+                    if isinstance(x, ast.BinOp) and isinstance(x.op, ast.Mult):
+                        for u, v in ((x.left, x.right), (x.right, x.left)):
+                            if same(v, K) and isinstance(u, ast.BinOp) and isinstance(u.op, ast.Add) and (
+                                    (isinstance(u.left, ast.Name) and u.left.id == b and isinstance(u.right, ast.Constant) and u.right.value == 1) or
+                                    (isinstance(u.right, ast.Name) and u.right.id == b and isinstance(u.left, ast.Constant) and u.left.value == 1)):
+                                return True
+                    return isinstance(x, ast.BinOp) and isinstance(x.op, ast.Add) and ((times(x.left) and same(x.right, K)) or (times(x.right) and same(x.left, K)))
+                if not times(lo):
+                    return None
+                for u, v in ((hi.args[0], hi.args[1]), (hi.args[1], hi.args[0])):
+                    if next_times(u) and same(v, N):
+                        return N
+                return None
+            if is_range(outer_iter, 3) and isinstance(outer_iter.args[0], ast.Constant) and outer_iter.args[0].value == 0:
+                N, K = outer_iter.args[1], outer_iter.args[2]
+                if not (isinstance(lo, ast.Name) and lo.id == b):
+                    return None
+                def plus(x):
+                    return isinstance(x, ast.BinOp) and isinstance(x.op, ast.Add) and ((isinstance(x.left, ast.Name) and x.left.id == b and same(x.right, K)) or
+                                                                                     (isinstance(x.right, ast.Name) and x.right.id == b and same(x.left, K)))
+                for u, v in ((hi.args[0], hi.args[1]), (hi.args[1], hi.args[0])):
+                    if plus(u) and same(v, N):
+                        return N
+            return None
+
+        import copy
+
+        def offset_pair(b, outer_iter, inner_iter):
+            """range(ceil((E - S) / K)) x range(S + b * K, min(S + b * K + K, E))  ->  (S, E)"""
+            if not (is_range(outer_iter, 1) and is_range(inner_iter, 2)):
+                return None
+            nk = ceil_div(outer_iter.args[0])
+            if nk is None:
+                return None
+            span, K = res(nk[0]), nk[1]
+            if not (isinstance(span, ast.BinOp) and isinstance(span.op, ast.Sub)):
+                return None
+            E, S = span.left, span.right
+            lo, hi = res(inner_iter.args[0]), res(inner_iter.args[1])
+            def bk(x):
+                return isinstance(x, ast.BinOp) and isinstance(x.op, ast.Mult) and ((isinstance(x.left, ast.Name) and x.left.id == b and same(x.right, K)) or
+                                                                                  (isinstance(x.right, ast.Name) and x.right.id == b and same(x.left, K)))
+            def is_lo(x):
+                x = res(x)
+                return isinstance(x, ast.BinOp) and isinstance(x.op, ast.Add) and ((same(x.left, S) and bk(x.right)) or (same(x.right, S) and bk(x.left)))
+            if not is_lo(lo):
+                return None
+            if not (isinstance(hi, ast.Call) and isinstance(hi.func, ast.Name) and hi.func.id == 'min' and len(hi.args) == 2 and not hi.keywords):
+                return None
+            for u, v in ((hi.args[0], hi.args[1]), (hi.args[1], hi.args[0])):
+                u = res(u) if isinstance(u, ast.Name) else u
+                if isinstance(u, ast.BinOp) and isinstance(u.op, ast.Add) and ((is_lo(u.left) and same(u.right, K)) or (is_lo(u.right) and same(u.left, K))) and same(v, E):
+                    return S, E
+            return None
+        if isinstance(s.target, ast.Name) and not s.orelse and s.body and isinstance(s.body[-1], ast.For) and not s.body[-1].orelse \
+                and isinstance(s.body[-1].target, ast.Name):
+            inner = s.body[-1]
+            b = s.target.id
+            # in front of the inner loop only the bounds of the block may be named (names bound once, used for nothing but these bounds)
+            heads = s.body[:-1]
+            head_names = [h.targets[0].id for h in heads if isinstance(h, ast.Assign) and len(h.targets) == 1 and isinstance(h.targets[0], ast.Name) and h.targets[0].id in defs]
+            heads_ok = len(head_names) == len(heads) and not any(uses(nm, inner.body) for nm in head_names)
+            fn_node = getattr(self.cur_fn, 'node', None)
+            if heads and heads_ok and fn_node is not None:
+                # ... and nowhere else in the function
+                in_heads_and_range = sum(1 for h in list(heads) + [inner.iter] for m in ast.walk(h) if isinstance(m, ast.Name) and m.id in head_names)
+                heads_ok = in_heads_and_range == sum(1 for m in ast.walk(fn_node) if isinstance(m, ast.Name) and m.id in head_names)
+            if heads_ok and not uses(b, inner.body) and b != inner.target.id:
+                N = block_pair(b, s.iter, inner.iter) if not heads else None
+                if N is not None:
+                    new = copy.copy(inner)
+                    new.iter = ast.copy_location(ast.Call(func=ast.Name(id='range', ctx=ast.Load()), args=[copy.deepcopy(N)], keywords=[]), inner.iter)
+                    ast.fix_missing_locations(new)
+                    return new
+                SE = offset_pair(b, s.iter, inner.iter)
+                if SE is not None:
+                    new = copy.copy(inner)
+                    new.iter = ast.copy_location(ast.Call(func=ast.Name(id='range', ctx=ast.Load()), args=[copy.deepcopy(SE[0]), copy.deepcopy(SE[1])], keywords=[]), inner.iter)
+                    ast.fix_missing_locations(new)
+                    return new
+        # for f in (f for block in range(NB) for f in range(block * K, min((block + 1) * K, N))): the generator written out (directly or through a name bound once)
+        it = s.iter
+        if isinstance(it, ast.Name) and isinstance(defs.get(it.id), ast.GeneratorExp) and \
+                sum(1 for m in ast.walk(getattr(self.cur_fn, 'node', s)) if isinstance(m, ast.Name) and m.id == it.id) == 2:
+            it = defs[it.id]
+        if isinstance(it, ast.GeneratorExp) and len(it.generators) == 2 and all(not g.ifs and not g.is_async and isinstance(g.target, ast.Name) for g in it.generators) \
+                and isinstance(it.elt, ast.Name) and it.elt.id == it.generators[1].target.id:
+            N = block_pair(it.generators[0].target.id, it.generators[0].iter, it.generators[1].iter)
+            if N is not None:
+                new = copy.copy(s)
+                new.iter = ast.copy_location(ast.Call(func=ast.Name(id='range', ctx=ast.Load()), args=[copy.deepcopy(N)], keywords=[]), s.iter)
+                ast.fix_missing_locations(new)
+                return new
+        return None
+
+    def _shifted_index_loop(self, s):
+        """for p in range(E - 1): f = p + 1; ... p ... f ...   is   for f in range(1, E): ... f - 1 ... f ..."""
+        if not (isinstance(s.target, ast.Name) and isinstance(s.iter, ast.Call) and isinstance(s.iter.func, ast.Name) and s.iter.func.id == 'range' and not s.iter.keywords
+                and len(s.iter.args) in (1, 2) and not s.orelse and len(s.body) >= 2):
+            return None
+        if len(s.iter.args) == 2 and not (isinstance(s.iter.args[0], ast.Constant) and s.iter.args[0].value == 0 and not isinstance(s.iter.args[0].value, bool)):
+            return None
+        hi = s.iter.args[-1]
+        if not (isinstance(hi, ast.BinOp) and isinstance(hi.op, ast.Sub) and isinstance(hi.right, ast.Constant) and hi.right.value == 1 and not isinstance(hi.right.value, bool)):
+            return None
+        p, first = s.target.id, s.body[0]
+        if not (isinstance(first, ast.Assign) and len(first.targets) == 1 and isinstance(first.targets[0], ast.Name) and isinstance(first.value, ast.BinOp)
+                and isinstance(first.value.op, ast.Add)):
+            return None
+        l_, r_ = first.value.left, first.value.right
+        one = lambda x: isinstance(x, ast.Constant) and x.value == 1 and not isinstance(x.value, bool)
+        isp = lambda x: isinstance(x, ast.Name) and x.id == p
+        if not ((isp(l_) and one(r_)) or (isp(r_) and one(l_))):
+            return None
+        f = first.targets[0].id
+        if f == p:
+            return None
+        rest = s.body[1:]
+        if any(isinstance(m, ast.Name) and m.id in (p, f) and isinstance(m.ctx, (ast.Store, ast.Del)) for b in rest for m in ast.walk(b)):
+            return None
+        fn_node = getattr(self.cur_fn, 'node', None)
+        if fn_node is None:
+            return None
+        inside = sum(1 for b in s.body for m in ast.walk(b) if isinstance(m, ast.Name) and m.id == p)
+        if sum(1 for m in ast.walk(fn_node) if isinstance(m, ast.Name) and m.id == p) != inside + 1:
+            return None          # the index is read after the loop
+        if sum(1 for m in ast.walk(fn_node) if isinstance(m, ast.Name) and m.id == f and isinstance(m.ctx, ast.Store)) != 1:
+            return None
+        import copy
+
+        class Shift(ast.NodeTransformer):
+            def visit_Name(self_, m):
+                if m.id == p and isinstance(m.ctx, ast.Load):
+                    return ast.copy_location(ast.BinOp(left=ast.Name(id=f, ctx=ast.Load()), op=ast.Sub(), right=ast.Constant(value=1)), m)
+                return m
+        new = copy.deepcopy(s)
+        new.body = [Shift().visit(b) for b in new.body[1:]]
+        new.target = ast.copy_location(ast.Name(id=f, ctx=ast.Store()), s.target)
+        new.iter = ast.copy_location(ast.Call(func=ast.Name(id='range', ctx=ast.Load()), args=[ast.Constant(value=1), copy.deepcopy(hi.left)], keywords=[]), s.iter)
+        ast.fix_missing_locations(new)
+        return new
+
+    def _countdown_loop_as_reversed(self, s):
+        """for n in range(E, 0, -1): ... n - 1 ...   with n used only as `n - 1`   is   for i in reversed(range(E)): ... i ..."""
+        if not (isinstance(s.target, ast.Name) and isinstance(s.iter, ast.Call) and isinstance(s.iter.func, ast.Name) and s.iter.func.id == 'range' and len(s.iter.args) == 3
+                and not s.iter.keywords and isinstance(s.iter.args[1], ast.Constant) and s.iter.args[1].value == 0 and not isinstance(s.iter.args[1].value, bool)):
+            return None
+        st = s.iter.args[2]
+        if not (isinstance(st, ast.UnaryOp) and isinstance(st.op, ast.USub) and isinstance(st.operand, ast.Constant) and st.operand.value == 1) and \
+                not (isinstance(st, ast.Constant) and st.value == -1):
+            return None
+        n = s.target.id
+        minus_one = set()
+        for b in s.body + s.orelse:
+            for m in ast.walk(b):
+                if isinstance(m, ast.BinOp) and isinstance(m.op, ast.Sub) and isinstance(m.left, ast.Name) and m.left.id == n and isinstance(m.right, ast.Constant) and m.right.value == 1 \
+                        and not isinstance(m.right.value, bool):
+                    minus_one.add(id(m.left))
+        inside = 0
+        for b in s.body + s.orelse:
+            for m in ast.walk(b):
+                if isinstance(m, ast.Name) and m.id == n:
+                    inside += 1
+                    if id(m) not in minus_one:
+                        return None
+        fn_node = getattr(self.cur_fn, 'node', None)
+        if not minus_one or fn_node is None or sum(1 for m in ast.walk(fn_node) if isinstance(m, ast.Name) and m.id == n) != inside + 1:
+            return None
+        import copy
+        idx = '_index_' + n
+
+        class Shift(ast.NodeTransformer):
+            def visit_BinOp(self_, m):
+                if isinstance(m.op, ast.Sub) and isinstance(m.left, ast.Name) and m.left.id == n and isinstance(m.right, ast.Constant) and m.right.value == 1:
+                    return ast.copy_location(ast.Name(id=idx, ctx=ast.Load()), m)
+                return self_.generic_visit(m)
+        new = copy.deepcopy(s)
+        new.body = [Shift().visit(b) for b in new.body]
+        new.orelse = [Shift().visit(b) for b in new.orelse]
+        new.target = ast.copy_location(ast.Name(id=idx, ctx=ast.Store()), s.target)
+        rng = ast.Call(func=ast.Name(id='range', ctx=ast.Load()), args=[copy.deepcopy(s.iter.args[0])], keywords=[])
+        new.iter = ast.copy_location(ast.Call(func=ast.Name(id='reversed', ctx=ast.Load()), args=[rng], keywords=[]), s.iter)
+        ast.fix_missing_locations(new)
+        return new
+
     def st_For(self, s, env):
+        for rewrite in (self._blocked_loop_as_flat, self._shifted_index_loop, self._countdown_loop_as_reversed, self._index_loop_as_rows):
+            new = rewrite(s)
+            if new is not None:
+                s = new
         # `for step in ((f, a), (g, b)): ...` over a short literal display is the body written out once per element
         it = self.expr(s.iter, env)
         # search loop over a short display:  for x in (a, b, c): if test(x): break   [else: <not found>]   is   if test(a): x = a  elif test(b): x = b ... else: <not found>
@@ -1465,6 +1908,7 @@ class FuncGraph:
             else:
                 kws.append((k.arg, v))
         args = self._splice_stars(args)
+        args, kws = self._relative_axes(f, args, kws, e)
         if f.op == 'partial':
             # functools.partial(g, a, k=v)(b, k2=w) is g(a, b, k=v, k2=w); keywords of the call win
             pf, pargs, pkws = f.args
@@ -1520,6 +1964,298 @@ class FuncGraph:
         t = self.mk('call', (f, tuple(args), tuple(kws)), e)
         self.event('call', t, e)
         return t
+
+    # positions of axis-like positional arguments (operand = argument 0); keyword names are the same for functions and methods
+    AXIS_POS = {'numpy.sum': (1,), 'numpy.mean': (1,), 'numpy.amax': (1,), 'numpy.max': (1,), 'numpy.amin': (1,), 'numpy.min': (1,), 'numpy.prod': (1,), 'numpy.linalg.norm': (2,),
+                'numpy.any': (1,), 'numpy.all': (1,), 'numpy.std': (1,), 'numpy.var': (1,), 'numpy.argmax': (1,), 'numpy.argmin': (1,), 'numpy.cumsum': (1,), 'numpy.cumprod': (1,),
+                'numpy.squeeze': (1,), 'numpy.take': (2,), 'numpy.take_along_axis': (2,), 'numpy.moveaxis': (1, 2), 'numpy.swapaxes': (1, 2), 'numpy.rollaxis': (1,),
+                'numpy.concatenate': (1,), 'numpy.median': (1,), 'numpy.percentile': (2,), 'numpy.sort': (1,), 'numpy.argsort': (1,), 'numpy.flip': (1,), 'numpy.repeat': (2,),
+                'numpy.delete': (2,), 'numpy.compress': (2,), 'numpy.trace': (2, 3), 'numpy.diagonal': (2, 3), 'scipy.special.logsumexp': (1,), 'numpy.expand_dims': (1,), 'numpy.stack': (1,)}
+    AXIS_KW = ('axis', 'axis1', 'axis2', 'source', 'destination')
+    METHOD_AXIS_POS = {'sum': (0,), 'mean': (0,), 'max': (0,), 'min': (0,), 'prod': (0,), 'any': (0,), 'all': (0,), 'std': (0,), 'var': (0,), 'argmax': (0,), 'argmin': (0,),
+                       'cumsum': (0,), 'cumprod': (0,), 'squeeze': (0,), 'swapaxes': (0, 1), 'take': (1,), 'repeat': (1,)}
+
+    def _rank_source(self, t):
+        """t = X.ndim / np.ndim(X) / len(X.shape)  ->  X, else None"""
+        if t.op == 'attr' and t.args[1] == 'ndim':
+            return t.args[0]
+        if t.op == 'call' and t.args[0].op == 'ref' and len(t.args[1]) == 1 and not t.args[2]:
+            r = t.args[0].args[0]
+            if isinstance(r, Lib) and r.dotted == 'numpy.ndim':
+                return t.args[1][0]
+            if r == ('builtin', 'len') and _display_item(t.args[1][0]).op == 'attr' and _display_item(t.args[1][0]).args[1] == 'shape':
+                return _display_item(t.args[1][0]).args[0]
+        return None
+
+    def _same_rank(self, a, b, depth=0):
+        """a and b are arrays of the same rank as far as the terms show it: the same term, or connected by elementwise operations / copies / refinements"""
+        def closure(x):
+            seen, stack, out = set(), [x], []
+            while stack and len(out) < 60:
+                y = stack.pop()
+                if not isinstance(y, T) or y.id in seen:
+                    continue
+                seen.add(y.id)
+                out.append(y)
+                if y.op in ('refine', 'mu'):
+                    stack.append(y.args[0])
+                elif y.op in ('binop', 'iop') and y.args[0] in ('Add', 'Sub', 'Mult', 'Div', 'Pow'):
+                    stack += [z for z in (y.args[1], y.args[2]) if isinstance(z, T) and z.op != 'const']
+                elif y.op == 'attr' and y.args[1] in ('real', 'imag'):
+                    stack.append(y.args[0])
+                elif y.op == 'gamma':
+                    stack += [y.args[1], y.args[2]]
+                elif y.op == 'call' and y.args[1]:
+                    f_ = y.args[0]
+                    nm = f_.args[0].dotted if f_.op == 'ref' and isinstance(f_.args[0], Lib) else ('method:' + f_.args[1] if f_.op == 'attr' else None)
+                    if nm in ('numpy.abs', 'numpy.absolute', 'numpy.conj', 'numpy.conjugate', 'numpy.exp', 'numpy.log', 'numpy.sqrt', 'numpy.square', 'numpy.asarray', 'numpy.array',
+                              'numpy.copy', 'numpy.ascontiguousarray', 'numpy.maximum', 'numpy.minimum', 'numpy.clip', 'numpy.real', 'numpy.imag', 'numpy.zeros_like', 'numpy.ones_like',
+                              'numpy.empty_like', 'numpy.nan_to_num', 'numpy.transpose', 'numpy.swapaxes', 'numpy.moveaxis'):
+                        stack.append(y.args[1][0])
+                    elif nm in ('method:copy', 'method:astype', 'method:conj', 'method:conjugate', 'method:transpose', 'method:swapaxes'):
+                        stack.append(f_.args[0])
+            return out
+        ca = closure(a)
+        ids = {x.id for x in ca}
+        return any(x.id in ids for x in closure(b))
+
+    def _rank_of(self, t, depth=0, want=None):
+        """(root term, d): the rank of t is rank(root) + d as far as the term shows it (elementwise operations, copies, reorderings: d unchanged; a reduction over one literal /
+        relative axis without keepdims: d - 1; None-indexing: + number of None; integer indices behind an Ellipsis: - their number)"""
+        if not isinstance(t, T) or depth > 25:
+            return None
+        if t.op in ('refine', 'mu'):
+            return self._rank_of(t.args[0], depth + 1, want)
+        if t.op in ('binop', 'iop') and t.args[0] in ('Add', 'Sub', 'Mult', 'Div', 'Pow'):
+            first = None
+            for z in (t.args[1], t.args[2]):
+                if isinstance(z, T) and z.op != 'const':
+                    r = self._rank_of(z, depth + 1, want)
+                    if r is not None and (want is None or r[0] is want):
+                        return r
+                    first = first or r
+            return first          # (operands of one elementwise operation that is not a broadcast have the same rank: any of them tells it)
+        if t.op == 'attr' and t.args[1] in ('real', 'imag', 'T', 'mT'):
+            return self._rank_of(t.args[0], depth + 1, want)
+        if t.op == 'sub' and t.args[1].op == 'tuple':
+            items = t.args[1].args[0]
+            if all((x.op == 'const' and (x.args[0] is Ellipsis or x.args[0] is None or (isinstance(x.args[0], int) and not isinstance(x.args[0], bool)))) or x.op == 'slice' for x in items):
+                r = self._rank_of(t.args[0], depth + 1, want)
+                if r is None:
+                    return None
+                d = sum(1 for x in items if x.op == 'const' and x.args[0] is None) - sum(1 for x in items if x.op == 'const' and isinstance(x.args[0], int) and not isinstance(x.args[0], bool))
+                return r[0], r[1] + d
+            return None
+        if t.op == 'gamma':
+            a, b = self._rank_of(t.args[1], depth + 1, want), self._rank_of(t.args[2], depth + 1, want)
+            if a is not None and b is not None and a[0] is b[0] and a[1] == b[1]:
+                return a          # both alternatives have the rank of the same array
+            return t, 0
+        if t.op == 'call' and t.args[1] and t.args[0].op == 'ref' and getattr(t.args[0].args[0], 'qual', None) == 'pb_bss.utils::abs_square' and t.args[1][0].op != 'star':
+            return self._rank_of(t.args[1][0], depth + 1, want)          # |x|^2, elementwise
+        if t.op == 'call' and (t.args[1] or t.args[0].op == 'attr'):
+            f_ = t.args[0]
+            nm = f_.args[0].dotted if f_.op == 'ref' and isinstance(f_.args[0], Lib) else ('method:' + f_.args[1] if f_.op == 'attr' and f_.args[0].op != 'ref' else None)
+            if nm is None:
+                return t, 0
+            opnd = f_.args[0] if nm.startswith('method:') else (t.args[1][0] if t.args[1] else None)
+            if opnd is None:
+                return t, 0
+            same = ('numpy.abs', 'numpy.absolute', 'numpy.conj', 'numpy.conjugate', 'numpy.exp', 'numpy.log', 'numpy.sqrt', 'numpy.square', 'numpy.asarray', 'numpy.array', 'numpy.copy',
+                    'numpy.ascontiguousarray', 'numpy.maximum', 'numpy.minimum', 'numpy.clip', 'numpy.real', 'numpy.imag', 'numpy.zeros_like', 'numpy.ones_like', 'numpy.empty_like',
+                    'numpy.nan_to_num', 'numpy.transpose', 'numpy.swapaxes', 'numpy.moveaxis', 'method:copy', 'method:astype', 'method:conj', 'method:conjugate', 'method:transpose',
+                    'method:swapaxes', 'numpy.cumsum', 'numpy.cumprod', 'numpy.sort', 'numpy.flip', 'numpy.angle', 'numpy.sign', 'numpy.negative', 'numpy.reciprocal',
+                    'numpy.log10', 'numpy.cos', 'numpy.sin', 'numpy.isfinite', 'numpy.isnan', 'numpy.where')
+            if nm in same:
+                return self._rank_of(opnd, depth + 1, want)
+            if nm in ('numpy.trace', 'method:trace'):
+                r = self._rank_of(opnd, depth + 1, want)
+                return (r[0], r[1] - 2) if r is not None else None
+            if nm == 'numpy.einsum' and len(t.args[1]) >= 2 and t.args[1][0].op == 'const' and isinstance(t.args[1][0].args[0], str) and '->' in t.args[1][0].args[0] \
+                    and not any(a.op == 'star' for a in t.args[1]):
+                # '...ct->...t': the result has one axis less than the operand (letters in minus letters out)
+                lhs, rhs = t.args[1][0].args[0].replace(' ', '').split('->')
+                ins = lhs.split(',')
+                if len(ins) == len(t.args[1]) - 1:
+                    for spec, o_ in zip(ins, t.args[1][1:]):
+                        if ('...' in spec) == ('...' in rhs):
+                            r = self._rank_of(o_, depth + 1, want)
+                            if r is not None:
+                                return r[0], r[1] - len(spec.replace('...', '')) + len(rhs.replace('...', ''))
+                return None
+            red_pos = self.KEEPDIMS_REDUCERS.get(nm) if not nm.startswith('method:') else (0 if nm[7:] in self.KEEPDIMS_METHODS else None)
+            if red_pos is not None or nm in ('numpy.argmax', 'numpy.argmin', 'method:argmax', 'method:argmin', 'scipy.special.logsumexp'):
+                if red_pos is None:
+                    red_pos = 1 if not nm.startswith('method:') else 0
+                kwd = dict((k, v) for k, v in t.args[2] if k is not None)
+                ax = kwd.get('axis', t.args[1][red_pos] if len(t.args[1]) > red_pos else None)
+                kd = kwd.get('keepdims')
+                r = self._rank_of(opnd, depth + 1, want)
+                if r is None or ax is None:
+                    return None
+                if kd is not None and not (kd.op == 'const' and kd.args[0] in (True, False)):
+                    return None
+                if kd is not None and kd.args[0] is True:
+                    return r
+                n_ax = len(ax.args[0]) if ax.op in ('tuple', 'list') else 1
+                if ax.op == 'const' and ax.args[0] is None:
+                    return None
+                return r[0], r[1] - n_ax
+            return t, 0
+        if t.op in ('param', 'unpack', 'elem', 'attr', 'gamma', 'unknown', 'call'):
+            return t, 0          # its own root: ranks are only compared between terms with the same root
+        return None
+
+    def _relative_axes(self, f, args, kws, e):
+        """np.sum(x, axis=x.ndim - 1) is np.sum(x, axis=-1): an axis written relative to the rank of the operand (X.ndim - k, -k % X.ndim, with X of the operand's rank)
+        is the negative axis; for np.expand_dims / np.stack the position refers to the RESULT rank (one more per inserted axis)"""
+        lib = f.args[0].dotted if f.op == 'ref' and isinstance(f.args[0], Lib) else None
+        if lib is not None:
+            if lib not in self.AXIS_POS or not args:
+                return args, kws
+            operand, positions = args[0], self.AXIS_POS[lib]
+        elif f.op == 'attr' and f.args[1] in self.METHOD_AXIS_POS and f.args[0].op != 'ref':
+            operand, positions = f.args[0], self.METHOD_AXIS_POS[f.args[1]]
+        elif f.op == 'ref' and not isinstance(f.args[0], (Lib, tuple)) and args and args[0].op != 'star' and any(k == 'axis' for k, _ in kws):
+            operand, positions = args[0], ()          # a function of this repository called as helper(x, axis=x.ndim - 1): by convention an axis of its first argument
+        else:
+            return args, kws
+        joined = ()
+        if lib == 'numpy.concatenate' or lib == 'numpy.stack':
+            operand = args[0].args[0][0] if args[0].op in ('tuple', 'list') and args[0].args[0] else None
+            if operand is None:
+                return args, kws
+            joined = tuple(x for x in args[0].args[0] if x.op != 'star')          # all of one rank: the rank of any of them is the rank of the operand
+        grows = 1 if lib in ('numpy.expand_dims', 'numpy.stack') else 0
+
+        r_op = self._rank_of(operand)
+
+        def made_with_shape(arr, shp):
+            # arr = np.random.uniform(size=shp) / np.zeros(shp) / np.empty(shp, ...): its rank is len(shp)
+            if not (isinstance(arr, T) and arr.op == 'call' and arr.args[0].op == 'ref' and isinstance(arr.args[0].args[0], Lib)):
+                return False
+            d_ = arr.args[0].args[0].dotted
+            kw_ = dict((k, v) for k, v in arr.args[2] if k is not None)
+            cand = None
+            if d_ in ('numpy.zeros', 'numpy.ones', 'numpy.empty', 'numpy.full') :
+                cand = arr.args[1][0] if arr.args[1] else kw_.get('shape')
+            elif d_.startswith('numpy.random.') and 'size' in kw_:
+                cand = kw_['size']
+            def strip(x):
+                while isinstance(x, T) and (x.op == 'refine' or (x.op == 'call' and x.args[0].op == 'ref' and x.args[0].args[0] in (('builtin', 'tuple'), ('builtin', 'list'))
+                                                                 and len(x.args[1]) == 1 and not x.args[2])):
+                    x = x.args[0] if x.op == 'refine' else x.args[1][0]
+                return x
+            return cand is not None and strip(cand) is strip(shp)
+
+        def offset(src):
+            # rank(operand) - rank(src), when both are known relative to the same root (0 when the terms are connected by rank-preserving operations)
+            if isinstance(src, tuple) and src[0] == 'shape-of':
+                return r_op[1] if r_op is not None and made_with_shape(r_op[0], src[1]) else None
+            if any(src is x for x in joined):
+                return 0
+            r_src = self._rank_of(src)
+            if r_op is not None and r_src is not None and r_op[0] is r_src[0]:
+                return r_op[1] - r_src[1]
+            if r_src is not None:
+                r_op2 = self._rank_of(operand, 0, r_src[0])          # a quotient of two differently derived arrays: the operand that shares the root
+                if r_op2 is not None and r_op2[0] is r_src[0]:
+                    return r_op2[1] - r_src[1]
+            return 0 if self._same_rank(src, operand) else None
+
+        def rank_plus(t, depth=0):
+            # t = X.ndim + c / X.ndim - c / (X.ndim - 1) + 1 / X.ndim  ->  (X, c)
+            if depth > 4:
+                return None
+            src = self._rank_source(t)
+            if src is not None:
+                return src, 0
+            if t.op == 'call' and t.args[0].op == 'ref' and t.args[0].args[0] == ('builtin', 'len') and len(t.args[1]) == 1 and not t.args[2] and t.args[1][0].op != 'star':
+                return ('shape-of', t.args[1][0]), 0          # len(shape) of the shape an array was created with
+            def cint(c):
+                return c.op == 'const' and isinstance(c.args[0], int) and not isinstance(c.args[0], bool)
+            if t.op == 'binop' and t.args[0] in ('Add', 'Sub') and cint(t.args[2]):
+                r = rank_plus(t.args[1], depth + 1)
+                if r is not None:
+                    return r[0], r[1] + (t.args[2].args[0] if t.args[0] == 'Add' else -t.args[2].args[0])
+            if t.op == 'binop' and t.args[0] == 'Add' and cint(t.args[1]):
+                r = rank_plus(t.args[2], depth + 1)
+                if r is not None:
+                    return r[0], r[1] + t.args[1].args[0]
+            return None
+
+        through = _display_item
+
+        def rel(t, m):
+            t = through(t)
+            rp = rank_plus(t) if t.op == 'binop' and t.args[0] in ('Add', 'Sub') else None
+            if rp is not None and not (t.args[0] == 'Sub' and self._rank_source(t.args[1]) is not None):
+                # nested arithmetic on the rank: (x.ndim - 1) + 1, 1 + x.ndim - 3
+                d = offset(rp[0])
+                if d is not None:
+                    k = rp[1] - d - m
+                    return const(k, t.node, self.fn) if k < 0 else None
+            # m = number of axes the call inserts (result rank - operand rank).  Position p = rank(src) - k of an array of rank(operand) + m axes is the negative axis
+            # -(k + rank(operand) - rank(src) + m)
+            if t.op == 'binop' and t.args[0] == 'Sub' and t.args[2].op == 'const' and isinstance(t.args[2].args[0], int) and not isinstance(t.args[2].args[0], bool) and t.args[2].args[0] >= 0:
+                src = self._rank_source(t.args[1])
+                d = offset(src) if src is not None else None
+                if d is not None:
+                    k = t.args[2].args[0] + d + m
+                    return const(-k, t.node, self.fn) if k >= 1 else None
+            src0 = self._rank_source(t)
+            d0 = offset(src0) if src0 is not None else None
+            if d0 is not None and d0 + m >= 1:
+                return const(-(d0 + m), t.node, self.fn)          # np.expand_dims(x, x.ndim): the new axis is the last one
+            if t.op == 'binop' and t.args[0] == 'Mod':
+                # a % x.ndim names the same axis of x as a (a constant or the caller's axis parameter)
+                src = self._rank_source(t.args[2])
+                if src is not None and offset(src) == 0 and m == 0 and (t.args[1].op in ('param', 'refine') or
+                                                                           (t.args[1].op == 'const' and isinstance(t.args[1].args[0], int) and not isinstance(t.args[1].args[0], bool))):
+                    return t.args[1]
+            return None
+
+        def conv(t):
+            # tuple(range(x.ndim, x.ndim + 2)) / range(x.ndim - 2, x.ndim): consecutive positions relative to the rank, written as a range
+            r_ = t
+            if r_.op == 'call' and r_.args[0].op == 'ref' and r_.args[0].args[0] in (('builtin', 'tuple'), ('builtin', 'list')) and len(r_.args[1]) == 1 and not r_.args[2]:
+                r_ = r_.args[1][0]
+            if r_.op == 'call' and r_.args[0].op == 'ref' and r_.args[0].args[0] == ('builtin', 'range') and len(r_.args[1]) == 2 and not r_.args[2]:
+                lo, hi = rank_plus(r_.args[1][0]), rank_plus(r_.args[1][1])
+                if lo is not None and hi is not None and lo[0] is hi[0] and 1 <= hi[1] - lo[1] <= 4:
+                    d = offset(lo[0])
+                    n_ = hi[1] - lo[1]
+                    m = n_ if grows else 0
+                    if d is not None:
+                        ks = [-d + lo[1] + i - m for i in range(n_)]
+                        if all(k < 0 for k in ks):
+                            return self.mk('tuple', (tuple(const(k, t.node, self.fn) for k in ks),), t.node)
+                return None
+            if t.op in ('tuple', 'list') and t.args[0] and not any(x.op == 'star' for x in t.args[0]):
+                m = len(t.args[0]) if grows else 0
+                new = [rel(x, m) for x in t.args[0]]
+                if any(n is not None for n in new) and all(n is not None or (x.op == 'const' and isinstance(x.args[0], int) and x.args[0] < 0) for n, x in zip(new, t.args[0])):
+                    return self.mk(t.op, (tuple(n if n is not None else x for n, x in zip(new, t.args[0])),), t.node)
+                return None
+            return rel(t, grows)
+        changed = False
+        args = list(args)
+        off = 0
+        for p in positions:
+            if p < len(args) and args[p].op != 'star':
+                n = conv(args[p])
+                if n is not None:
+                    args[p], changed = n, True
+        kws2 = []
+        for k, v in kws:
+            if k in self.AXIS_KW and isinstance(v, T):
+                n = conv(v)
+                if n is not None:
+                    kws2.append((k, n))
+                    changed = True
+                    continue
+            kws2.append((k, v))
+        return (args, kws2) if changed else (args, kws)
 
     FRESH_MAKERS = ('numpy.empty', 'numpy.empty_like', 'numpy.zeros', 'numpy.zeros_like', 'numpy.ones', 'numpy.ones_like', 'numpy.full', 'numpy.full_like')
 
@@ -1587,12 +2323,209 @@ class FuncGraph:
                 self._guards.pop()
         return self.mk('gamma', (cond, outs[0], outs[1]), e)
 
+    # ------------------------------------------------------------------ unit axes: reshape / moveaxis / swapaxes spellings of x[..., None, :]
+    def _unit_axis_sub(self, x, lead, trail, e):
+        """x[None * len(lead), ..., <trail: 'none' / 'full'>] through the subscript forms"""
+        none = lambda: const(None, e, self.fn)
+        full = lambda: self.mk('slice', (none(), none(), none()), e)
+        while trail and trail[0] == 'full':
+            trail = trail[1:]          # x[..., :, None] is x[..., None]
+        if not lead and not trail:
+            return x
+        if lead and not trail:
+            items = [none() for _ in lead]
+            return self._sub(x, items[0] if len(items) == 1 else self.mk('tuple', (tuple(items),), e), e)
+        items = [none() for _ in lead] + [const(Ellipsis, e, self.fn)] + [none() if t_ == 'none' else full() for t_ in trail]
+        return self._sub(x, self.mk('tuple', (tuple(items),), e), e)
+
+    def _unit_axis_view(self, t):
+        """t = x[None, ..., None, :]  ->  (x, n_lead, trail) with trail a list of 'none' / 'full'; None when t is not such a view"""
+        if not (isinstance(t, T) and t.op == 'sub'):
+            return None
+        x, idx = t.args
+        items = list(idx.args[0]) if idx.op == 'tuple' else [idx]
+        def is_none(i):
+            return i.op == 'const' and i.args[0] is None or (i.op == 'ref' and isinstance(i.args[0], Lib) and i.args[0].dotted == 'numpy.newaxis')
+        def is_full(i):
+            return i.op == 'slice' and all(y.op == 'const' and y.args[0] is None for y in i.args)
+        lead = 0
+        while items and is_none(items[0]):
+            lead += 1
+            items = items[1:]
+        if not items:
+            return (x, lead, [])
+        if not (items[0].op == 'const' and items[0].args[0] is Ellipsis):
+            return None
+        trail = []
+        for i in items[1:]:
+            if is_none(i):
+                trail.append('none')
+            elif is_full(i):
+                trail.append('full')
+            else:
+                return None
+        return (x, lead, trail)
+
+    def _shape_items(self, t, x, depth=0):
+        """the entries of a target shape written in terms of x.shape: list of ('all',) / ('range', lo, hi) / ('dim', k) / ('one',), or None"""
+        def same(y):
+            while isinstance(y, T) and y.op == 'refine':
+                y = y.args[0]
+            z = x
+            while isinstance(z, T) and z.op == 'refine':
+                z = z.args[0]
+            # self.c.reshape(*self.c.shape, 1): the same attribute path of the same object, read twice in one expression
+            while isinstance(y, T) and isinstance(z, T) and y is not z and y.op == 'attr' and z.op == 'attr' and y.args[1] == z.args[1]:
+                y, z = y.args[0], z.args[0]
+                while isinstance(y, T) and y.op == 'refine':
+                    y = y.args[0]
+                while isinstance(z, T) and z.op == 'refine':
+                    z = z.args[0]
+            return y is z
+        def cint(c):
+            return c.op == 'const' and (c.args[0] is None or (isinstance(c.args[0], int) and not isinstance(c.args[0], bool)))
+        if depth > 6 or not isinstance(t, T):
+            return None
+        if t.op == 'star':
+            return self._shape_items(t.args[0], x, depth + 1)
+        if t.op in ('tuple', 'list'):
+            out = []
+            for it in t.args[0]:
+                if it.op == 'star':
+                    r = self._shape_items(it.args[0], x, depth + 1)
+                elif it.op == 'const' and it.args[0] == 1 and isinstance(it.args[0], int) and not isinstance(it.args[0], bool):
+                    r = [('one',)]
+                elif it.op == 'sub' and it.args[0].op == 'attr' and it.args[0].args[1] == 'shape' and same(it.args[0].args[0]) and it.args[1].op == 'const' \
+                        and isinstance(it.args[1].args[0], int) and not isinstance(it.args[1].args[0], bool):
+                    r = [('dim', it.args[1].args[0])]
+                else:
+                    return None
+                if r is None:
+                    return None
+                out.extend(r)
+            return out
+        if t.op == 'binop' and t.args[0] == 'Add':
+            a, b = self._shape_items(t.args[1], x, depth + 1), self._shape_items(t.args[2], x, depth + 1)
+            return a + b if a is not None and b is not None else None
+        if t.op == 'attr' and t.args[1] == 'shape' and same(t.args[0]):
+            return [('all',)]
+        if t.op == 'sub' and t.args[0].op == 'attr' and t.args[0].args[1] == 'shape' and same(t.args[0].args[0]) and t.args[1].op == 'slice':
+            lo, hi, st = t.args[1].args
+            if cint(lo) and cint(hi) and st.op == 'const' and st.args[0] is None:
+                return [('range', lo.args[0], hi.args[0])]
+            return None
+        if t.op == 'call' and t.args[0].op == 'ref' and t.args[0].args[0] in (('builtin', 'tuple'), ('builtin', 'list')) and len(t.args[1]) == 1 and not t.args[2]:
+            return self._shape_items(t.args[1][0], x, depth + 1)
+        return None
+
+    def _unit_axis_forms(self, f, lib, args, kws, e):
+        """reshapes that only insert unit axes (x.reshape(*x.shape, 1), x.reshape(*x.shape[:-1], 1, x.shape[-1])), moves of a unit axis
+        (np.moveaxis(x[None], 0, -3), np.swapaxes(x[..., None], -1, -2)) and indexing a moved axis (np.moveaxis(x, -2, 0)[0] is handled in the subscript):
+        all are x[..., None, :, :] with the unit axis at its final place"""
+        kwd = dict((k, v) for k, v in kws if k is not None)
+        if any(k is None for k, _ in kws):
+            return None
+        # --- reshape
+        x = shape = None
+        if lib == 'numpy.reshape' and not (set(kwd) - {'a', 'newshape', 'shape'}) and not any(a.op == 'star' for a in args[:1]):
+            x = args[0] if args else kwd.get('a')
+            rest = list(args[1:]) + [v for k, v in kws if k in ('newshape', 'shape')]
+            shape = rest[0] if len(rest) == 1 else None
+        elif f.op == 'attr' and f.args[1] == 'reshape' and f.args[0].op != 'ref' and not (set(kwd) - {'shape'}):
+            x = f.args[0]
+            rest = list(args) + [v for k, v in kws if k == 'shape']
+            if len(rest) == 1 and rest[0].op != 'const':
+                shape = rest[0]
+            elif rest:
+                shape = self.mk('tuple', (tuple(rest),), e)
+        if x is not None and shape is not None:
+            items = self._shape_items(shape, x)
+            if items and any(i == ('one',) for i in items) and sum(1 for i in items if i[0] in ('all', 'range') and (i[0] == 'all' or i[1] is None)) == 1:
+                lead, k = 0, 0
+                while items[k] == ('one',):
+                    lead, k = lead + 1, k + 1
+                head, tail = items[k], items[k + 1:]
+                if head == ('all',):
+                    if all(i == ('one',) for i in tail):
+                        return self._unit_axis_sub(x, [None] * lead, ['none'] * len(tail), e)
+                    return None
+                if head[0] == 'range' and head[1] is None and isinstance(head[2], int) and head[2] < 0:
+                    need, trail, ok = head[2], [], True          # the next dimension that has to follow
+                    for i in tail:
+                        if i == ('one',):
+                            trail.append('none')
+                        elif i[0] == 'dim' and i[1] == need and need < 0:
+                            trail.append('full')
+                            need += 1
+                        elif i[0] == 'range' and i[1] == need and i[2] is None and need < 0:
+                            trail.extend(['full'] * (-need))
+                            need = 0
+                        else:
+                            ok = False
+                            break
+                    if ok and need == 0:
+                        return self._unit_axis_sub(x, [None] * lead, trail, e)
+            return None
+        # --- a unit axis moved to another place
+        if lib in ('numpy.moveaxis', 'numpy.swapaxes') and len(args) + len(kws) == 3 and not any(a.op == 'star' for a in args):
+            names = ('a', 'source', 'destination') if lib == 'numpy.moveaxis' else ('a', 'axis1', 'axis2')
+            vals = list(args) + [kwd.get(n) for n in names[len(args):]]
+            if any(v is None for v in vals):
+                return None
+            x, a1, a2 = vals
+            if not all(a.op == 'const' and isinstance(a.args[0], int) and not isinstance(a.args[0], bool) for a in (a1, a2)):
+                return None
+            view = self._unit_axis_view(x)
+            if view is None:
+                return None
+            base, lead, trail = view
+            p, q = a1.args[0], a2.args[0]
+            if lib == 'numpy.swapaxes' and not (p < 0 and q < 0):
+                return None
+            def at(pos):
+                """what sits at axis pos: ('lead', i) / ('trail', i) / None"""
+                if pos >= 0:
+                    return ('lead', pos) if pos < lead else None
+                return ('trail', len(trail) + pos) if -pos <= len(trail) else None
+            src = at(p)
+            if src is None or (src[0] == 'trail' and trail[src[1]] != 'none'):
+                if lib == 'numpy.swapaxes':
+                    src, p, q = at(q), q, p          # swapaxes is symmetric: the unit axis may be named second
+                    if src is None or (src[0] == 'trail' and trail[src[1]] != 'none'):
+                        return None
+                else:
+                    return None
+            if lib == 'numpy.swapaxes':
+                # exchanging the unit axis with a NEIGHBOUR moves it by one place; with a farther axis the axes in between change places too
+                if abs(p - q) != 1:
+                    return None
+            if q >= 0:
+                return None          # a destination counted from the front is a different axis for every rank
+            lead2, trail2 = lead, list(trail)
+            if src[0] == 'lead':
+                if lead != 1 or src[1] != 0:
+                    return None
+                lead2 = 0
+            else:
+                del trail2[src[1]]
+            # insert at position q of the result (rank = len(trail2) + 1 trailing places known)
+            width = len(trail2) + 1
+            while width < -q:
+                trail2.insert(0, 'full')
+                width += 1
+            trail2.insert(width + q, 'none')
+            return self._unit_axis_sub(base, [None] * lead2, trail2, e)
+        return None
+
     # ------------------------------------------------------------------ canonical forms of equivalent spellings
     def canonical_call(self, f, args, kws, e, env):
         """np.multiply(a, b[, out=a]) -> a * b / a *= b; np.expand_dims(x, k) -> x[..., None, :]; calls of helpers that the
         reference tree does not have are inlined.  Returns the replacing term or None."""
         lib = f.args[0].dotted if f.op == 'ref' and isinstance(f.args[0], Lib) else None
         plain = not any(a.op == 'star' for a in args) and all(k is not None for k, _ in kws)
+        ua = self._unit_axis_forms(f, lib, args, kws, e)
+        if ua is not None:
+            return ua
         # NumPy 2 / array-API names of operations that have an older name
         if lib in self.MODERN_ALIASES and plain:
             return self.ex_call_terms(self.mk('ref', (Lib(self.MODERN_ALIASES[lib]),), e), list(args), list(kws), e, env)
@@ -1737,7 +2670,26 @@ class FuncGraph:
                 else:
                     items = [full() for _ in range(k)] + [none]
                 idx = self.mk('tuple', (tuple(items),), e)
-                return self.mk('sub', (x, idx), e)
+                return self._sub(x, idx, e)
+            if x is not None and ax is not None and ax.op in ('tuple', 'list') and len(args) + len(kws) == 2 and ax.args[0] \
+                    and all(a.op == 'const' and isinstance(a.args[0], int) and not isinstance(a.args[0], bool) and a.args[0] < 0 for a in ax.args[0]):
+                # np.expand_dims(x, (-2, -1)): the positions refer to the result; trailing ones give x[..., None, None]
+                pos = sorted(a.args[0] for a in ax.args[0])
+                if len(set(pos)) == len(pos):
+                    width = -pos[0]
+                    layout = ['full'] * width
+                    for q in pos:
+                        layout[width + q] = 'none'
+                    return self._unit_axis_sub(x, [], layout, e)
+            if x is not None and ax is not None and ax.op in ('tuple', 'list') and len(args) + len(kws) == 2 and ax.args[0] \
+                    and all(a.op == 'const' and isinstance(a.args[0], int) and not isinstance(a.args[0], bool) and a.args[0] >= 0 for a in ax.args[0]):
+                # np.expand_dims(x, (0, 2)) is x[None, :, None]
+                pos = sorted(a.args[0] for a in ax.args[0])
+                if len(set(pos)) == len(pos) and pos[-1] <= 6:
+                    none = lambda: const(None, e, self.fn)
+                    full = lambda: self.mk('slice', (none(), none(), none()), e)
+                    items = [none() if j in pos else full() for j in range(pos[-1] + 1)]
+                    return self._sub(x, items[0] if len(items) == 1 else self.mk('tuple', (tuple(items),), e), e)
         if lib in UFUNC_CMP and plain and len(args) == 2 and not kws:
             return self.mk('cmp', (UFUNC_CMP[lib], args[0], args[1]), e)          # np.greater(a, b) is a > b
         if lib in ('numpy.not_equal', 'operator.ne') and plain and len(args) == 2 and not kws:
@@ -1754,6 +2706,51 @@ class FuncGraph:
                 return self.canonical_call(self.mk('ref', (Lib('numpy.maximum'),), e), [l, r], [], e, env) or self._libcall('numpy.maximum', (l, r), e)
             if a is l and b is r:
                 return self.canonical_call(self.mk('ref', (Lib('numpy.minimum'),), e), [l, r], [], e, env) or self._libcall('numpy.minimum', (l, r), e)
+        if lib in ('numpy.swapaxes', 'numpy.moveaxis') and plain and len(args) == 3 and not kws and args[0].op == 'call' and all(k is not None for k, _ in args[0].args[2]) \
+                and not any(a.op == 'star' for a in args[0].args[1]):
+            # np.swapaxes(np.sum(np.swapaxes(x, a, 0), axis=0, keepdims=True), 0, a) is np.sum(x, axis=a, keepdims=True): the reduced axis is brought to a fixed place and back
+            red = args[0]
+            rf = red.args[0]
+            rname = rf.args[0].dotted if rf.op == 'ref' and isinstance(rf.args[0], Lib) else None
+            if rname in self.KEEPDIMS_REDUCERS and red.args[1]:
+                pos_axis = self.KEEPDIMS_REDUCERS[rname]
+                rk = dict(red.args[2])
+                r_ax = rk.get('axis', red.args[1][pos_axis] if len(red.args[1]) > pos_axis else None)
+                kd = rk.get('keepdims')
+                inner = red.args[1][0]
+                def cint(c):
+                    return c is not None and c.op == 'const' and isinstance(c.args[0], int) and not isinstance(c.args[0], bool)
+                if cint(r_ax) and kd is not None and kd.op == 'const' and kd.args[0] is True and 'out' not in rk and inner.op == 'call' and inner.args[0].op == 'ref' \
+                        and isinstance(inner.args[0].args[0], Lib) and inner.args[0].args[0].dotted == lib and len(inner.args[1]) == 3 and not inner.args[2]:
+                    y, i1, i2 = inner.args[1]
+                    o1, o2 = args[1], args[2]
+                    k = r_ax.args[0]
+                    named = None
+                    if lib == 'numpy.swapaxes':
+                        # inner exchanges {a, k}; outer exchanges {k, a}
+                        for a_, k_ in ((i1, i2), (i2, i1)):
+                            if cint(k_) and k_.args[0] == k and not cint(a_):
+                                for oa, ok_ in ((o1, o2), (o2, o1)):
+                                    if cint(ok_) and ok_.args[0] == k and oa is a_:
+                                        named = a_
+                    else:
+                        # inner moves a -> k; outer moves k -> a
+                        if cint(i2) and i2.args[0] == k and not cint(i1) and cint(o1) and o1.args[0] == k and o2 is i1:
+                            named = i1
+                    if named is not None:
+                        new_args = list(red.args[1])
+                        new_kws = [(kk, vv) for kk, vv in red.args[2] if kk != 'axis']
+                        new_args[0] = y
+                        if len(new_args) > pos_axis:
+                            new_args[pos_axis] = named
+                        else:
+                            new_kws.append(('axis', named))
+                        new = self.mk('call', (rf, tuple(new_args), tuple(new_kws)), red.node)
+                        for ev in self.events:
+                            if ev.term is red:
+                                ev.term = new
+                        self.events[:] = [ev for ev in self.events if ev.term is not inner]
+                        return new
         if lib == 'numpy.moveaxis' and plain and len(args) + len(kws) == 3:
             kwd = dict(kws)
             x = args[0] if args else kwd.get('a')
@@ -1773,9 +2770,9 @@ class FuncGraph:
                 k = ax.args[0]
                 full = lambda: self.mk('slice', (const(None, e, self.fn), const(None, e, self.fn), const(None, e, self.fn)), e)
                 if k == 0:
-                    return self.mk('sub', (x, ind), e)
+                    return self._sub(x, ind, e)
                 items = ([full() for _ in range(k)] + [ind]) if k > 0 else ([const(Ellipsis, e, self.fn), ind] + [full() for _ in range(-k - 1)])
-                return self.mk('sub', (x, self.mk('tuple', (tuple(items),), e)), e)
+                return self._sub(x, self.mk('tuple', (tuple(items),), e), e)
         if lib in ('numpy.full', 'numpy.full_like') and plain:
             # np.full(shape, 1.0) is np.ones(shape); np.full(shape, 0) is np.zeros(shape, dtype=int) ...
             kwd = dict(kws)
@@ -2357,19 +3354,30 @@ class FuncGraph:
             v = env.get(('$rec', e.value.id, e.slice.value))
             return v if v is not None else self.mk('unknown', ('keyerror',), e)
         base, idx = self.expr(e.value, env), self.index(e.slice, env)
-        if base.op == 'attr' and base.args[1] == 'shape' and idx.op == 'binop' and idx.args[0] == 'Sub' and idx.args[1].op == 'attr' and idx.args[1].args[1] == 'ndim' \
-                and _rank_root(idx.args[1].args[0]) is _rank_root(base.args[0]) and idx.args[2].op == 'const' and isinstance(idx.args[2].args[0], int) and idx.args[2].args[0] >= 1:
+        shape_of = _display_item(base)
+        if shape_of.op == 'attr' and shape_of.args[1] == 'shape' and shape_of is not base and (idx.op == 'slice' or (idx.op == 'binop' and idx.args[0] == 'Sub')) and any(
+                self._rank_source(x) is not None for x in ((idx.args[0], idx.args[1]) if idx.op == 'slice' else (idx.args[1],)) for x in ([x.args[1]] if x.op == 'binop' else [x])):
+            base = shape_of          # shape_A, shape_B = A.shape, B.shape ... shape_A[len(shape_A) - 2:]: read as A.shape[...] for the rank arithmetic below
+        if base.op == 'attr' and base.args[1] == 'shape' and idx.op == 'binop' and idx.args[0] == 'Sub' and self._rank_source(idx.args[1]) is not None \
+                and _rank_root(self._rank_source(idx.args[1])) is _rank_root(base.args[0]) and idx.args[2].op == 'const' and isinstance(idx.args[2].args[0], int) and idx.args[2].args[0] >= 1:
             idx = const(-idx.args[2].args[0], e, self.fn)          # x.shape[x.ndim - k] is x.shape[-k]
         if base.op == 'attr' and base.args[1] == 'shape' and idx.op == 'slice':
             # ... and x.shape[x.ndim - k:] is x.shape[-k:]
             def neg(b):
-                if b.op == 'binop' and b.args[0] == 'Sub' and b.args[1].op == 'attr' and b.args[1].args[1] == 'ndim' and _rank_root(b.args[1].args[0]) is _rank_root(base.args[0]) \
+                if b.op == 'binop' and b.args[0] == 'Sub' and self._rank_source(b.args[1]) is not None and _rank_root(self._rank_source(b.args[1])) is _rank_root(base.args[0]) \
                         and b.args[2].op == 'const' and isinstance(b.args[2].args[0], int) and b.args[2].args[0] >= 1:
                     return const(-b.args[2].args[0], e, self.fn)
                 return b
             lo2, hi2 = neg(idx.args[0]), neg(idx.args[1])
             if lo2 is not idx.args[0] or hi2 is not idx.args[1]:
                 idx = self.mk('slice', (lo2, hi2, idx.args[2]), idx.node)
+        return self._sub(base, idx, e)
+
+    def _sub(self, base, idx, e):
+        """base[idx] in its canonical form (also used by the forms that are built as a subscript: np.expand_dims, np.take, reshapes that only insert unit axes)"""
+        composed = self._compose_subscripts(base, idx, e)
+        if composed is not None:
+            base, idx = composed
         if base.op == 'call' and not base.args[2] and (
                 (base.args[0].op == 'ref' and isinstance(base.args[0].args[0], Lib) and base.args[0].args[0].dotted in ('numpy.conj', 'numpy.conjugate') and len(base.args[1]) == 1) or
                 (base.args[0].op == 'attr' and base.args[0].args[1] in ('conj', 'conjugate') and not base.args[1])):
@@ -2425,6 +3433,55 @@ class FuncGraph:
             return dd
         return self.mk('sub', (base, idx), e)
 
+    def _compose_subscripts(self, base, idx, e):
+        """x[:, f, :][p] is x[p, f, :]: an index applied to a view that was cut out with full slices and integer loop indices addresses the axes the slices left.  Only when
+        the integer / array indices of the result stay next to each other (NumPy moves separated advanced indices to the front) and nothing is an Ellipsis or None."""
+        if base.op != 'sub':
+            return None
+        inner = list(base.args[1].args[0]) if base.args[1].op == 'tuple' else [base.args[1]]
+        outer = list(idx.args[0]) if idx.op == 'tuple' else [idx]
+        is_full = lambda x: x.op == 'slice' and all(y.op == 'const' and y.args[0] is None for y in x.args)
+
+        def int_scalar(x, depth=0):
+            # an integer by construction: a literal, the index of a loop over a range, sums / differences of those
+            if depth > 3:
+                return False
+            if x.op == 'const':
+                return isinstance(x.args[0], int) and not isinstance(x.args[0], bool)
+            if x.op == 'elem' and x.args and isinstance(x.args[0], T):
+                it = x.args[0]
+                while it.op == 'call' and it.args[0].op == 'ref' and it.args[0].args[0] == ('builtin', 'reversed') and len(it.args[1]) == 1:
+                    it = it.args[1][0]
+                return it.op == 'call' and it.args[0].op == 'ref' and it.args[0].args[0] == ('builtin', 'range')
+            if x.op == 'binop' and x.args[0] in ('Add', 'Sub'):
+                return int_scalar(x.args[1], depth + 1) and int_scalar(x.args[2], depth + 1)
+            return False
+        if not inner or not all(is_full(x) or int_scalar(x) for x in inner) or not any(is_full(x) for x in inner) or not any(int_scalar(x) for x in inner):
+            return None
+        if not outer or any(x.op == 'star' or x.op == 'slice' and not is_full(x) or (x.op == 'const' and (x.args[0] is None or x.args[0] is Ellipsis)) for x in outer):
+            return None
+        if idx.op not in ('tuple', 'param', 'elem', 'mu', 'call', 'unpack', 'const', 'gamma', 'refine', 'binop', 'sub'):
+            return None
+        if idx.op == 'gamma':
+            return None
+        free = sum(1 for x in inner if is_full(x))
+        if len(outer) > free:
+            return None
+        items, k = [], 0
+        for x in inner:
+            if is_full(x) and k < len(outer):
+                items.append(outer[k])
+                k += 1
+            else:
+                items.append(x)
+        # the positions that are not full slices must be contiguous
+        pos = [i for i, x in enumerate(items) if not is_full(x)]
+        if not pos or pos != list(range(pos[0], pos[-1] + 1)):
+            return None
+        while len(items) > 1 and is_full(items[-1]) and len(items) > len(inner):
+            items.pop()
+        return base.args[0], self.mk('tuple', (tuple(items),), e)
+
     def _dict_dispatch(self, base, key, default, e):
         """{k1: v1, k2: v2}[key]  ->  v1 if key == k1 else (v2 if key == k2 else <KeyError>): a literal dispatch table is the if / elif chain it abbreviates
         (a callee or operand tuple selected this way is then distributed over the call like any other conditional selection)"""
@@ -2455,14 +3512,26 @@ class FuncGraph:
 
     def _keepdims_form(self, base, idx, e):
         """reduce(x, axis=-k)[..., None, <k-1 full slices>]  ->  reduce(x, axis=-k, keepdims=True): the reduced axis is put back where it was"""
-        if base.op != 'call' or idx.op != 'tuple' or any(k is None for k, _ in base.args[2]) or any(a.op == 'star' for a in base.args[1]):
+        if base.op != 'call' or any(k is None for k, _ in base.args[2]) or any(a.op == 'star' for a in base.args[1]):
             return None
-        items = idx.args[0]
-        if len(items) < 2 or not (items[0].op == 'const' and items[0].args[0] is Ellipsis) or not (items[1].op == 'const' and items[1].args[0] is None):
+        if idx.op == 'const' and idx.args[0] is None:
+            items = (idx,)
+        elif idx.op == 'tuple':
+            items = idx.args[0]
+        else:
             return None
-        if not all(x.op == 'slice' and all(y.op == 'const' and y.args[0] is None for y in x.args) for x in items[2:]):
-            return None
-        k = -(len(items) - 1)
+        is_full = lambda x: x.op == 'slice' and all(y.op == 'const' and y.args[0] is None for y in x.args)
+        is_none = lambda x: x.op == 'const' and x.args[0] is None
+        if len(items) >= 2 and items[0].op == 'const' and items[0].args[0] is Ellipsis and is_none(items[1]) and all(is_full(x) for x in items[2:]):
+            k = -(len(items) - 1)
+        else:
+            # counted from the front: reduce(x, axis=j)[:, None] / reduce(x, axis=0)[None, :] / reduce(x, axis=0)[None]
+            j = 0
+            while j < len(items) and is_full(items[j]):
+                j += 1
+            if j == len(items) or not is_none(items[j]) or not all(is_full(x) for x in items[j + 1:]):
+                return None
+            k = j
         f = base.args[0]
         if f.op == 'ref' and isinstance(f.args[0], Lib) and f.args[0].dotted in self.ELEMENTWISE_UNARY and len(base.args[1]) == 1 and not base.args[2]:
             # an elementwise function commutes with putting the axis back: sqrt(sum(x, -1))[..., None] is sqrt(sum(x, -1, keepdims=True))
@@ -2600,6 +3669,9 @@ class FuncGraph:
                 conds.append(self.expr(c, env2))
         vals = tuple(self.expr(x, env2) for x in elts)
         self._guards.pop()
+        if kind in ('list', 'gen') and len(iters) == 1 and not conds and len(vals) == 1 and vals[0].op == 'elem' and vals[0].extra is lp:
+            # [a for a in X] / (a for a in X) (also after the element was reduced to itself: an axis normalised to the front and back): the items of X
+            return self.mk('call', (self.mk('ref', (('builtin', 'list' if kind == 'list' else 'tuple'),), e), (iters[0],), ()), e)
         return self.mk('comp', (kind, vals, tuple(iters), tuple(conds)), e)
 
     def ex_ListComp(self, e, env):
